@@ -130,7 +130,7 @@ def build_kinds(rng, cap):
     items = [b for _, b in corpus.harvest()]
     ls_pool, nlri_pool, desc_pool = set(), set(), {}
     for b in items:
-        for off in (0, 3, 4):
+        for off in range(0, min(24, len(b))):
             d = b[off:]
             parts = tlv_split(d)
             if parts and len(d) >= 4:
@@ -330,6 +330,32 @@ def run_shard(sh):
                 diff = [c for c in set(got) | set(base) if got.get(c) != base.get(c)]
                 bad('attribute-order', ['differs:' + ','.join(sorted(diff))], 'attribute order %s changes the decoding of %s' % (pm, diff),
                     dict(attrs=_N(at), order=list(pm), asn4=asn4))
+    # link-state: attribute 29 is decoded with the protocol id found in the BGP-LS NLRI of attribute 14, wherever 14 stands
+    ls_elems = K['linkstate-attribute-tlvs']['pool']
+    dep = [e for e in ls_elems if int.from_bytes(e[:2], 'big') in (1099, 1100, 1158, 1162, 1038)]
+    for nl in K['bgpls-nlris']['pool']:
+        for _ in range(6 if sh['tier'] == 'quick' else 60):
+            tl = [rng2.choice(dep)] if dep and rng2.random() < 0.8 else []
+            tl += [rng2.choice(ls_elems) for _ in range(rng2.randint(0, 2))]
+            rng2.shuffle(tl)
+            enc = {14: refenc.attr(14, struct.pack('!HBB', 16388, 71, 4) + b'\x0a\x00\x00\x01\x00' + nl),
+                   29: refenc.attr(29, b''.join(tl)), 1: refenc.attr(1, b'\x00'), 2: refenc.attr(2, b''), 5: refenc.attr(5, b'\x00\x00\x00\x64')}
+            codes = sorted(enc)
+            try:
+                base = _N(Update.parse_attributes(b''.join(enc[c] for c in codes), True))
+            except Exception:
+                continue
+            for pm in itertools.permutations(codes):
+                nperm += 1
+                try:
+                    got = _N(Update.parse_attributes(b''.join(enc[c] for c in pm), True))
+                except Exception as ex:
+                    bad('attribute-order', ['raised', 'bgp-ls'], 'attribute order %s raised %r (sorted order decodes)' % (pm, ex), dict(order=list(pm)))
+                    continue
+                if got != base:
+                    diff = [c for c in set(got) | set(base) if got.get(c) != base.get(c)]
+                    bad('attribute-order', ['differs:' + ','.join(sorted(diff)), 'bgp-ls'], 'attribute order %s changes the decoding of %s: %s vs %s' % (
+                        pm, diff, json.dumps({c: got.get(c) for c in diff})[:300], json.dumps({c: base.get(c) for c in diff})[:300]), dict(order=list(pm)))
     res['evaluations'] = ncase + nperm
     res['counters'] = dict(tuples_checked=ncase, attribute_permutations=nperm)
     res['distinct'] = ['%d|%d' % (sh['part'], i) for i in range(ncase + nperm)]
